@@ -155,15 +155,12 @@ fn check_frags(frags: &[(u64, u64, u64)], widths: &[u64], pen: &PenSpec) -> Outc
     };
     let lens: Vec<usize> = got.iter().map(|l| l.len()).collect();
     if frags.is_empty() {
-        ensure!(lens == vec![0], "empty input must give one empty line, got {:?}", lens);
+        // the shape of the result for an empty input is C06's statement
         return Outcome::pass(false, vec!["frag_level", "empty"]);
     }
-    ensure!(
-        lens.iter().all(|l| *l > 0) && lens.iter().sum::<usize>() == frags.len(),
-        "wrap_optimal_fit did not return a partition: line lengths {:?} for {} fragments",
-        lens,
-        frags.len()
-    );
+    if !(lens.iter().all(|l| *l > 0) && lens.iter().sum::<usize>() == frags.len()) {
+        return Outcome::Skip("wrap_optimal_fit did not return a partition (C06's statement)");
+    }
     let (min, best_lens) = dp_min(&w, &ws, &p, widths, pen);
     if min >= (1u128 << 53) {
         return Outcome::Skip("cost not exactly representable");
@@ -181,6 +178,11 @@ fn check_frags(frags: &[(u64, u64, u64)], widths: &[u64], pen: &PenSpec) -> Outc
         pen
     );
     let ff: Vec<usize> = wrap_first_fit(&fr, &fw).iter().map(|l| l.len()).collect();
+    if ff.iter().any(|l| *l == 0) || ff.iter().sum::<usize>() != frags.len() {
+        // first-fit did not return a partition: that is C06's statement, and
+        // the comparison below would be meaningless
+        return Outcome::Skip("wrap_first_fit did not return a partition (C06's statement)");
+    }
     let ffcost = arrangement_cost(&w, &ws, &p, widths, pen, &ff);
     ensure!(
         cost <= ffcost,
@@ -275,15 +277,16 @@ fn check_text(par: &str, spec: &OptSpec, prior: bool) -> Outcome {
     let rooms: Vec<u64> = (0..m.max(2)).map(|k| room(spec, prior, k) as u64).collect();
     let line_widths = [rooms[0], rooms[1]];
     let mut verdicts = Vec::new();
+    let mut rendered = false;
     for sentinel in [false, true] {
         let fr = Frags::new(par, &words, sentinel);
         if !fr.tiles {
             return Outcome::Skip("fragments do not tile the paragraph (C11/C12's statement)");
         }
         let Some(cost) = cheapest_consistent(&fr, &bodies, &rooms, &pen) else {
-            verdicts.push(format!("sentinel={sentinel}: no partition renders to the output"));
             continue;
         };
+        rendered = true;
         let (min, best) = dp_min(&fr.w, &fr.ws, &fr.p, &line_widths, &pen);
         if cost == min {
             let mut classes = vec!["text_level"];
@@ -305,6 +308,9 @@ fn check_text(par: &str, spec: &OptSpec, prior: bool) -> Outcome {
             "sentinel={sentinel}: output costs {cost}, but line lengths {:?} cost {min}",
             best
         ));
+    }
+    if !rendered {
+        return Outcome::Skip("output is not a rendering of the in-context fragments (C01/C05's statement)");
     }
     Outcome::Fail(format!(
         "optimal-fit wrap is not a minimum-cost arrangement: wrap of {} with {:?} (prior line: {}) gave bodies {} (rooms {:?}); fragments {:?}; {}",
